@@ -133,6 +133,10 @@ class Repo:
         for _ in range(2):
             if not self._inline_oneliners():
                 break
+        from .norm import loops_for_generator_returns
+
+        for m in self.modules.values():
+            loops_for_generator_returns(m.tree)
         self._hoist_new_helper_calls()
 
     # ------------------------------------------------------------------ calls of new helpers become statements of their own
